@@ -118,4 +118,13 @@ PROPS = {
         ],
         "assumptions": ["bound parameters ($1.. / ? placeholders) are transmitted out of band by database/sql drivers and cannot change statement structure", "table and column names taken from the driver configuration / the graphs table are trusted (operator-supplied, or derived from a validated graph name)"],
     },
+    "C14": {
+        "trusted_base": [
+            "Model/Mongo.v core_kstep / mongo_kstep: hand-written mirrors of engine/core/compile.go:StatementProcessor and mongo/compile.go:Compile (lastType, markTypes), compared with both real compilers on every statement sequence of the run (the Mongo one through the verif hook, without a database)",
+            "Model/Mongo.v convert: hand-written mirror of mongo/has_evaluator.go, compared structurally with the real bson output on every case",
+            "meval: the semantics of $and/$or/$not/$eq/$ne/$gt/$gte/$lt/$lte/$in/$elemMatch on documents with scalar or absent fields, written from the MongoDB manual (type-bracketed comparisons, null matches absent, $in needs an array, empty $and/$or rejected); no MongoDB server exists in the sandbox, so this interpreter IS the reference and is trusted",
+            "the stored document of an element is {_id,label,from,to,data}; hypothesis Hdoc of C14_filter (server path lookup = core lookup through convertPath) is checked per case, not proved in general",
+        ],
+        "assumptions": ["the aggregation stages around the $match fragment (projection, lookups, unwinds) are not modelled: C14 covers typing and the has-filter fragment only", "has() keys in a mark namespace ($m.field) are outside the generated domain: convertPath drops the namespace"],
+    },
 }
